@@ -521,6 +521,15 @@ def run(chk, tier, seed):
         msg = ' / '.join(x.strip() for x in first)[:200] if first else 'compiler failed'
         valueless = ('return;' in text and '-> ?void' in text) or any(l.strip().startswith('break `v') and 'nil' not in l for l in text.splitlines())
         key = {'kind': 'rejected-well-typed', 'what': 'control-flow corpus', 'shape': 'value-less exit from a ?void function or block' if valueless else 'other'}
+        # role of a compiler panic: its message without the location prefix (`file::lambda#f #18 : `)
+        pl = [i for i, l in enumerate(out.splitlines()) if 'panicked at' in l]
+        if pl:
+            nxt = (out.splitlines() + [''])[pl[0] + 1]
+            key['panic'] = nxt.split(' : ', 1)[-1].strip()[:120]
+            if 'is not weak replaceable by' in key['panic'] and '?void' in key['panic']:
+                key['shape'] = '`?void` local initialised from a block that yields void, followed by a defer in the same loop body'
+        if 'timed out' in out[-200:]:
+            key['shape'] = 'compiler does not terminate'
         what = 'a well-typed control-flow program is not compiled (%s): %s' % (key['shape'], msg)
         full = clifcheck.PRELUDE + c03.OPT_HELPER + text + 'main :: () { p := %s; }\n' % n
         chk.report(key, what, replaylib.make_compile_replay('C01', 'corpus_' + n, full, out, what, key)); bad += 1
